@@ -63,3 +63,8 @@ def sq(t):
 def dist2(positions, i, c):
     """squared Euclidean distance between channels i and c"""
     return sq(positions[c][0] - positions[i][0]) + sq(positions[c][1] - positions[i][1])
+
+
+def rpsum(arrays, p):
+    """total number of elements of the first p arrays of a list of arrays"""
+    return sum(len(a) for a in arrays[:p])
